@@ -28,7 +28,9 @@ impl Manager {
         let interrupt_call_names = {
             let mut cfg = Cfg::new(nodes.clone())?;
             NodeDirectionPass::run(&mut cfg)?;
-            AvailableValuePass::run(&mut cfg)?;
+            // The values are those of the graph the analysis works on: without
+            // the ways out of unreachable code and past exit ecalls
+            Self::settle_values_and_exits(&mut cfg)?;
             cfg.get_names_of_interrupt_handler_functions()
         };
 
